@@ -255,16 +255,24 @@ theorem emitRst (h : KInv cfg k) (l r : SockAddr) (s : Seg) : KInv cfg (k.emitRs
 
 theorem abortWith (h : KInv cfg k) (fd : Nat) (b : Bool) : KInv cfg (Kernel.abortWith cfg k fd b) := by
   unfold Kernel.abortWith
-  dsimp only
   split
   · exact h
-  · split
+  · rename_i s hs
+    split
     · exact h
-    · apply h.setSock
-      intro t' ht'
-      simp only [Option.some.injEq] at ht'
-      subst ht'
-      exact Tcb.caps_abort _ _
+    · rename_i t ht
+      split
+      · apply h.setSock
+        intro t' ht'
+        simp only [Option.some.injEq] at ht'
+        subst ht'
+        have hc := h.tcb hs ht
+        exact ⟨by simp, hc.2⟩
+      · apply h.setSock
+        intro t' ht'
+        simp only [Option.some.injEq] at ht'
+        subst ht'
+        exact Tcb.caps_abort _ _
 
 theorem abortOrReap (h : KInv cfg k) (fd : Nat) (b : Bool) : KInv cfg (Kernel.abortOrReap cfg k fd b) := by
   unfold Kernel.abortOrReap
